@@ -27,8 +27,11 @@ CHECKS = {
               "WbArbiter_Live for N<=4(5); the real arbiter's complete transition table is "
               "extracted by an edge tour, validated entry by entry against the specification by "
               "TLC, and NoStarvation is model-checked by TLC directly on the extracted table "
-              "(specs/WbArbiterImpl_MC.tla)."),
-        note=TB + "; liveness is established for N<=4 (quick) on the extracted implementation table.",
+              "(specs/WbArbiterImpl_MC.tla). For EVERY N: TLAPS proves bounded waiting (at most N-1 grants to others, "
+              "no assumption on the initiators) of specs/WbArbiterAbs.tla (144 obligations), whose step relation "
+              "WbArbiter_MC / WbArbiter_Succ_MC are asserted to refine on every transition (N<=8) and every "
+              "recorded cycle of the real arbiters is validated against."),
+        note=TB + "; liveness is established for N<=4 (quick) on the extracted implementation table; the TLAPS theorem is about the abstract relation, tied to the code by refinement assertions (N<=8) and trace validation.",
         technique="TLC liveness checking on spec and on the transition table extracted from the real design; trace validation",
         design="5 (C08/C09), 2"),
     "C12": dict(
@@ -117,8 +120,12 @@ CHECKS = {
               "size coverage, cursor, failure atomicity and frozen-rejects asserted on every transition; TLC "
               "-simulate behaviours and seeded random histories are executed on real MemoryMap objects and "
               "every call's outcome plus resources()/windows()/cursor of every map is validated by TLC against "
-              "specs/MemoryMap.tla."),
-        note=MM + "; where the documentation demands more than the code enforces (explicit address not a multiple of the effective alignment; dense windows of ratio>1) either outcome is accepted, as the property states.",
+              "specs/MemoryMap.tla. Beyond the bounded universe: the abstract allocator specs/MemoryMapAbs.tla - "
+              "which MemoryMap_MC is asserted to refine on every transition and against whose step relation "
+              "every recorded call of the real MemoryMap is validated - is PROVED safe (no overlap, inside the "
+              "address space, frozen means fixed) for every size by TLAPS (90 obligations) and checked by Apalache "
+              "as an inductive invariant over unbounded integers."),
+        note=MM + "; the TLAPS/Apalache results are about the abstract module - the link to the code is refinement checked by TLC on the bounded universe plus trace validation; where the documentation demands more than the code enforces (explicit address not a multiple of the effective alignment; dense windows of ratio>1) either outcome is accepted, as the property states.",
         technique="TLA+ spec of the API + TLC model checking of histories; TLC-generated and random histories replayed on real objects; TLC trace validation",
         design="5 (C02)"),
     "C03": dict(
